@@ -341,6 +341,16 @@ def run_async_malformed(task):
             scripts[72] = ('no_validate',)
         elif case == 'ai-no-key':
             key = None if L == 0 else ()
+        elif case == 'lua-missing-nomatch':
+            # a healthy pattern that selects nothing in this block: the script is still missing
+            scripts[72] = ('read_error',)
+            lua_attr['check-lua-pattern'] = b'zz(?P<value>q+)'
+        elif case == 'lua-empty-nomatch':
+            scripts[72] = ('no_validate',)
+            lua_attr['check-lua-pattern'] = b'zz(?P<value>q+)'
+        elif case == 'ai-no-key-nomatch':
+            key = None if L == 0 else ()
+            ai_attr['check-ai-pattern'] = b'zz(?P<value>q+)'
         elif case == 'lua-pattern':
             lua_attr['check-lua-pattern'] = b'(unclosed'
         elif case == 'ai-pattern':
@@ -488,6 +498,16 @@ def confirm(binary, v, idx):
             env.pop('BLOCKWATCH_AI_API_KEY')
             if v.get('L'):
                 env['BLOCKWATCH_AI_API_KEY'] = ''
+        elif kind == 'lua-missing-nomatch':
+            lua_attr = 'check-lua="missing.lua" check-lua-pattern="zz(?P<value>q+)"'
+        elif kind == 'lua-empty-nomatch':
+            lua_attr = 'check-lua="empty.lua" check-lua-pattern="zz(?P<value>q+)"'
+        elif kind == 'ai-no-key-nomatch':
+            ai = True
+            ai_attr += ' check-ai-pattern="zz(?P<value>q+)"'
+            env.pop('BLOCKWATCH_AI_API_KEY')
+            if v.get('L'):
+                env['BLOCKWATCH_AI_API_KEY'] = ''
         elif kind == 'lua-pattern':
             lua_attr += ' check-lua-pattern="(unclosed"'
         elif kind == 'ai-pattern':
@@ -551,7 +571,7 @@ def main(tier):
     names = ['KeepSortedValidator', 'KeepUniqueValidator', 'LineCountValidator']
     results += pmap(run_propagation, [list(p) for p in itertools.permutations(names)], chunksize=2)
     atasks = [(c, L, p) for c in ('lua-path', 'ai-condition') for L in range(0, 3 if tier == 'quick' else 4) for p in (0, 1)]
-    atasks += [(c, 0, p) for c in ('lua-missing', 'lua-empty', 'lua-empty-after-healthy', 'ai-no-key', 'lua-pattern', 'ai-pattern') for p in (0, 1)]
+    atasks += [(c, 0, p) for c in ('lua-missing', 'lua-empty', 'lua-empty-after-healthy', 'ai-no-key', 'lua-pattern', 'ai-pattern', 'lua-missing-nomatch', 'lua-empty-nomatch', 'ai-no-key-nomatch') for p in (0, 1)]
     atasks.append(('ai-no-key', 1, 0))
     results += pmap(run_async_malformed, atasks)
     # line-count expressions: the C09 harness family A (symbolic expression), malformed/overflow verdicts only
